@@ -9,8 +9,9 @@ If the last step is missing the keyword (or the restart record) is silently igno
   * is written at least once (a non-const member function is called on it, directly or through ->, or one of its members
     is assigned),
 
-some later use must READ it: it is passed to a function (also inside std::move), returned, copied, compared or has a
-const member read.  A variable with writes and no read is reported."""
+some use at or after the first write must CONSUME it: it is passed by value / const reference / rvalue (also inside std::move),
+returned, copied, compared, captured.  Calling a const member only inspects the copy; handing it to a mutable reference
+parameter modifies it.  A variable with writes and no consumption at or after the first write is reported."""
 from verif.tree import walk, strip, show, children
 
 SKIP_T = ("int", "double", "float", "bool", "size_t", "std::size_t", "unsigned", "long", "char", "std::string", "string", "time_point", "iterator", "std::time_t")
@@ -52,7 +53,56 @@ def _root_outlives(e, refparams, others):
             return False
 
 
-def analyse(fn):
+_MUT_CACHE = {}
+
+
+def _only_mutates(qname, pidx, lookup, pts=None):
+    """True if every definition of `qname` found uses its pidx-th parameter only as the receiver of member calls / member
+    assignments (it changes the object and does not keep or copy it).  Unknown callee: False (it may install the object)."""
+    if lookup is None or not qname:
+        return False
+    key = (qname, pidx, tuple(pts or ()))
+    if key in _MUT_CACHE:
+        return _MUT_CACHE[key]
+    res = False
+    defs = [f for f in lookup(qname) if f.get("body") and pidx < len(f.get("params") or [])]
+    if pts:
+        same = [f for f in defs if [p_.get("t") for p_ in f["params"]] == list(pts)]
+        defs = same or [f for f in defs if len(f["params"]) == len(pts)]
+    if defs:
+        res = True
+        for f in defs:
+            pn = f["params"][pidx].get("n")
+            if not pn:
+                res = False
+                break
+
+            def rec(n):
+                nonlocal res
+                if n.get("k") == "Ref" and n.get("n") == pn and n.get("d") == "Parm":
+                    res = False          # used as a value somewhere: copied, stored, passed on
+                    return
+                if n.get("k") == "MCall" and isinstance(n.get("obj"), dict) and strip(n["obj"]).get("k") == "Ref" and strip(n["obj"]).get("n") == pn:
+                    for a in n.get("a") or []:
+                        rec(a)
+                    return
+                if n.get("k") == "Bin" and n.get("asg"):
+                    base = strip(n["c"][0])
+                    while base.get("k") in ("Mem", "Idx") and (base.get("b") or base.get("c")):
+                        base = strip(base["b"] if base["k"] == "Mem" else base["c"][0])
+                    if base.get("k") == "Ref" and base.get("n") == pn and strip(n["c"][0]).get("k") != "Ref":
+                        rec(n["c"][1])
+                        return
+                for ch in children(n):
+                    rec(ch)
+            rec(f["body"])
+            if not res:
+                break
+    _MUT_CACHE[key] = res
+    return res
+
+
+def analyse(fn, lookup=None):
     """list of (decl line, name, type, init text, write lines) for modified-and-dropped copies"""
     if not fn.get("body"):
         return [], 0
@@ -93,23 +143,36 @@ def analyse(fn):
             return (e["n"], e["dl"])
         return None
 
-    def rec(n, parent_reads):
+    def rec(n):
         k = n.get("k")
         if k == "Ref":
             key = (n.get("n"), n.get("dl"))
             if key in use:
-                use[key]["r"].append(n.get("l"))
+                use[key]["r"].append(n.get("l") or 0)
             return
         if k == "MCall" and isinstance(n.get("obj"), dict):
             c = is_c(n["obj"])
             if c is not None:
-                if n.get("const"):
-                    use[c]["r"].append(n.get("l"))
-                else:
-                    use[c]["w"].append(n.get("l"))
+                if not n.get("const"):
+                    use[c]["w"].append(n.get("l") or 0)
+                # a const member call only inspects the copy: neither a write nor a consumption
                 for a in n.get("a") or []:
-                    rec(a, True)
+                    rec(a)
                 return
+        if k in ("Call", "MCall", "Ctor") and n.get("a"):
+            pts = n.get("pt") or []
+            for i, a in enumerate(n["a"]):
+                c = is_c(a)
+                t = pts[i] if i < len(pts) else ""
+                repo_callee = (n.get("fn") or "").startswith(("Opm::", "(anonymous namespace)::")) and "<" not in (n.get("fn") or "").split("(")[0].split("::")[-1]
+                if c is not None and repo_callee and t.rstrip().endswith("&") and "&&" not in t and not t.lstrip().startswith("const ") and _only_mutates(n.get("fn"), i, lookup, pts):
+                    use[c]["w"].append(n.get("l") or 0)     # handed to a mutable reference parameter: modified there
+                else:
+                    rec(a)
+            for key_ in ("obj", "callee"):
+                if isinstance(n.get(key_), dict):
+                    rec(n[key_])
+            return
         if k == "Bin" and n.get("asg") and len(n.get("c") or []) == 2:
             lhs = strip(n["c"][0])
             base = lhs
@@ -117,8 +180,8 @@ def analyse(fn):
                 base = strip(base["b"] if base["k"] == "Mem" else base["c"][0])
             c = is_c(base) if base is not lhs else None
             if c is not None:
-                use[c]["w"].append(n.get("l"))
-                rec(n["c"][1], True)
+                use[c]["w"].append(n.get("l") or 0)
+                rec(n["c"][1])
                 return
         if k == "OpCall" and n.get("op") in ("=", "+=", "-=") and len(n.get("a") or []) == 2:
             lhs = strip(n["a"][0])
@@ -127,15 +190,15 @@ def analyse(fn):
                 base = strip(base["b"] if base["k"] == "Mem" else base["c"][0])
             c = is_c(base) if base is not lhs else None
             if c is not None:
-                use[c]["w"].append(n.get("l"))
-                rec(n["a"][1], True)
+                use[c]["w"].append(n.get("l") or 0)
+                rec(n["a"][1])
                 return
         for ch in children(n):
-            rec(ch, True)
-    rec(fn["body"], True)
+            rec(ch)
+    rec(fn["body"])
     out = []
     for key, (v, init) in cands.items():
         u = use[key]
-        if u["w"] and not u["r"]:
+        if u["w"] and not [l for l in u["r"] if l >= min(u["w"])]:
             out.append((v.get("l"), v["n"], v.get("t"), init, sorted(set(u["w"]))))
     return out, len(cands)
